@@ -26,7 +26,7 @@ type machine struct {
 }
 
 func (m *machine) logf(format string, a ...any) { m.hist = append(m.hist, fmt.Sprintf(format, a...)) }
-func (m *machine) history() string               { return "\n history:\n  " + strings.Join(m.hist, "\n  ") }
+func (m *machine) history() string              { return "\n history:\n  " + strings.Join(m.hist, "\n  ") }
 
 func countEvents(evs []world.Ev, ct api.ElementChangeType) int {
 	n := 0
